@@ -267,7 +267,7 @@ def _addr_of_wide(fn, a):
     return None
 
 
-def analysis(fn):
+def analysis(fn, extra_edge=None):
     allf = {}
     for b in fn.blocks.values():
         for el in b["elems"]:
@@ -278,6 +278,8 @@ def analysis(fn):
 
     def edge_fx(b, si, atom, holds):
         out = list(guard_facts(fn, atom, holds))
+        if extra_edge is not None:
+            out += list(extra_edge(atom, holds))
         x = fn.e(atom)
         if x and x["k"] == "call" and holds:
             g = _callee_fn(fn, x)
@@ -564,8 +566,9 @@ def run_label_delta(chk, fns, rule="R-LABEL-DELTA-NARROW", floor=3):
     chk.rule(rule, "a distance computed from a bound label's offset() (64 bits) reaches a narrower field only when it is known to fit: an explicit "
                    "cast to <= 32 bits of a label-derived 64-bit variable, and emit_value_le/be of one with a size that is not the constant 8, are "
                    "dominated by a range predicate over that variable (is_int_n / is_encodable_offset_* / constant comparison) on the passing "
-                   "edge; a cast applied directly to the label arithmetic has no variable to test and is accepted only in the declared "
-                   "modulo-2^32 form `(...) & 0xFFFFFFFF` (buffer positions of one section are below 2^31 apart)")
+                   "edge, or by Environment::is_32bit() (the instruction pointer wraps at 2^32, the low 32 bits are the exact displacement); a "
+                   "cast applied directly to the label arithmetic has no variable to test and is refused, masked or not: CodeHolder::bind_label() "
+                   "accepts any 64-bit offset, so a bound label can be farther than 2^31 away")
     n = 0
     for fn in fns:
         taint = label_tainted(fn)
@@ -573,10 +576,17 @@ def run_label_delta(chk, fns, rule="R-LABEL-DELTA-NARROW", floor=3):
         m = None
         short = fn.name.replace("asmjit::", "")
 
+        def mode32(atom, holds, fn=fn, taint=taint):
+            # in 32-bit mode the instruction pointer wraps at 2^32: the low 32 bits of any distance are the exact displacement
+            x = fn.e(atom)
+            if x and x["k"] in ("call", "mcall") and x.get("cn") == "is_32bit" and holds:
+                return [("ranged", d) for d in taint]
+            return ()
+
         def state(i):
             nonlocal m
             if m is None:
-                m = analysis(fn)
+                m = analysis(fn, extra_edge=mode32)
             return m.before(i) or frozenset()
         k = 0
         for i, x in sorted(fn.ex.items()):
@@ -623,9 +633,10 @@ def run_label_delta(chk, fns, rule="R-LABEL-DELTA-NARROW", floor=3):
                             cv = int(cv)
                         if cv == (1 << db) - 1 and db == 32:
                             modular = True
-                chk.ob(rule, "%s|cast#%d" % (short, k), modular, loc=fn.loc(i),
-                       detail="`%s` narrows label arithmetic to %d bits in place: there is no range test (and no variable one could apply to), "
-                              "so an addend/distance that does not fit wraps silently" % (" ".join(fn.text(i).split())[:70], db),
+                chk.ob(rule, "%s|cast#%d" % (short, k), False, loc=fn.loc(i),
+                       detail="`%s` narrows label arithmetic to %d bits in place%s: there is no range test (and no variable one could apply to), "
+                              "so a distance that does not fit wraps silently - a label can be bound at any 64-bit offset (CodeHolder::bind_label)" %
+                              (" ".join(fn.text(i).split())[:70], db, " (modulo 2^32)" if modular else ""),
                        key="labelnarrow|%s|%d" % (short, k))
                 k += 1
             elif x["k"] == "mcall" and x.get("cn") in ("emit_value_le", "emit_value_be") and len(x.get("args", [])) == 2:
